@@ -96,8 +96,10 @@ pub fn check_via_muxer(strings: &[Vec<u8>], obs: &mut Obs) -> Vec<Violation> {
         ops.push(Op::Finish(FinishKind::InPlaceStats));
         let h = History { cfg, ops };
         let (ex, sink) = run(&h, &ExecOpts::default());
-        if ex.any_panic() {
-            obs.inconclusive += 1;
+        if let Some((i, Res::Panic { msg, loc })) = ex.first_panic() {
+            // a frame the converter must re-frame made the muxer panic instead
+            let frame = h.ops.get(i).and_then(|o| o.data()).map(crate::util::hex_short).unwrap_or_default();
+            out.push(v(format!("muxer|{}|panic-on-frame", name), format!("call #{} (frame {}) panicked at {}: {}", i, frame, loc, msg)));
             continue;
         }
         let bytes = sink.bytes();
